@@ -20,7 +20,7 @@ class Contract:
                  props=(), self_type=None, fields=None, is_property=False, on_call=None, let=None,
                  pure=True, kind='code', note='', allow_assert_fail=False, cases=None, hints=None,
                  yields=None, trusted=False, statement=None, varargs=None, kwargs=None, defaults=None,
-                 lemmas=None, timeout=None, negative_controls=None, variant=None):
+                 lemmas=None, timeout=None, negative_controls=None, variant=None, result_from=None):
         self.file, self.qual = file, qual
         self.params = dict(params or {})        # name -> type string (ordered)
         self.requires = _clauses(requires)
@@ -51,6 +51,7 @@ class Contract:
         self.lemmas = list(lemmas or [])
         self.timeout = timeout
         self.variant = variant
+        self.result_from = result_from    # {'copy_of': param, 'fresh': [field, ...]}: result object shares all other fields (same references)
         REGISTRY[(file, qual if variant is None else qual + '#' + variant)] = self
         BY_NAME.setdefault(qual, []).append(self)
         BY_NAME.setdefault(qual.split('.')[-1], []).append(self)
